@@ -97,55 +97,72 @@ def toAKey : Label → AKey
   | .int i => .int i
   | .text s => .text s
 
+def ctyOf (e : Env) : Option String :=
+  match get e.prot lCty with
+  | some (.text s) => some s
+  | _ => none
+
+def schemeOf (e : Env) : Option String :=
+  match get e.prot lScheme with
+  | some (.text s) => some s
+  | _ => none
+
+/-- the integer `alg` header, if it is one -/
+def headerAlg (e : Env) : Option Int :=
+  match get e.prot lAlg with
+  | some (.int a) => some a
+  | _ => none
+
+def algOf (e : Env) : Option Nat := (headerAlg e).bind coseAlgToAlg
+
+def signingTimeOf (e : Env) (scheme : String) : Option Time := (timeLabelOf scheme).bind (parseTime e.prot)
+
+def expiryOf (e : Env) : Option Time :=
+  if (get e.prot lExpiry).isSome then parseTime e.prot lExpiry else some zeroT
+
+def goodCert (x : X5Elem) : Bool :=
+  match x with
+  | .bytes (some _) => true
+  | _ => false
+
+def certsOK (e : Env) : Bool :=
+  match e.x5c with
+  | some (x :: xs) => (x :: xs).all goodCert
+  | _ => false
+
+def critOK (e : Env) (scheme : String) : Bool :=
+  (mustCrit e.prot scheme).all (fun l => (critLabels e.prot).contains l)
+
+def extAttrsOf (e : Env) : List Attr :=
+  (e.prot.filter (fun en => !isSystem en.label)).map
+    (fun en => { key := toAKey en.label, critical := (critLabels e.prot).contains en.label, value := en.tok })
+
+def chainOf (e : Env) : List Nat :=
+  match e.x5c with
+  | some elems => elems.filterMap (fun x => match x with | .bytes c => c | .notBytes => none)
+  | none => []
+
+def contentOf (e : Env) (cty scheme : String) (alg : Nat) (st expiry : Time) : Content :=
+  { payload := e.payload, payloadLen := e.payloadLen, cty := cty, scheme := scheme, signingTime := st, expiry := expiry,
+    extAttrs := extAttrsOf e, alg := alg, chain := chainOf e, sigLen := e.sigLen, agent := e.agent, tst := e.tst }
+
 /-- `envelope.Content()` of the COSE envelope -/
 def content (e : Env) : Out Content :=
-  -- payload(): content type present and a text string
-  match get e.prot lCty with
-  | some (.text cty) =>
-    if e.sigLen == 0 then .err .invalidSignature
-    else
-      -- validateCritHeaders
-      match get e.prot lScheme with
-      | some (.text scheme) =>
-        let crit := critLabels e.prot
-        if !(mustCrit e.prot scheme).all (fun l => crit.contains l) then .err .invalidSignature
-        else
-          -- algorithm
-          match get e.prot lAlg with
-          | some (.int a) =>
-            match coseAlgToAlg a with
-            | none => .err .invalidSignature
-            | some alg =>
-              match timeLabelOf scheme with
-              | none => .err .invalidSignature
-              | some tl =>
-                match parseTime e.prot tl with
-                | none => .err .invalidSignature
-                | some st =>
-                  let expiryR : Option Time :=
-                    if (get e.prot lExpiry).isSome then parseTime e.prot lExpiry else some zeroT
-                  match expiryR with
-                  | none => .err .invalidSignature
-                  | some expiry =>
-                    match e.x5c with
-                    | none => .err .invalidSignature
-                    | some [] => .err .invalidSignature
-                    | some elems =>
-                      if elems.any (fun x => match x with | .bytes (some _) => false | _ => true) then .err .invalidSignature
-                      else
-                        let ext := e.prot.filter (fun en => !isSystem en.label)
-                        .val { payload := e.payload, payloadLen := e.payloadLen, cty := cty, scheme := scheme,
-                               signingTime := st, expiry := expiry,
-                               extAttrs := ext.map (fun en => { key := toAKey en.label, critical := crit.contains en.label, value := en.tok }),
-                               alg := alg,
-                               chain := elems.filterMap (fun x => match x with | .bytes c => c | .notBytes => none),
-                               sigLen := e.sigLen, agent := e.agent, tst := e.tst }
-          | _ => .err .invalidSignature
-      | _ => .err .invalidSignature
-  | _ => .err .invalidSignature
+  match ctyOf e, schemeOf e with
+  | some cty, some scheme =>
+    if e.sigLen == 0 || !critOK e scheme then .err .invalidSignature
+    else match algOf e, signingTimeOf e scheme, expiryOf e with
+      | some alg, some st, some expiry =>
+        if !certsOK e then .err .invalidSignature else .val (contentOf e cty scheme alg st expiry)
+      | _, _, _ => .err .invalidSignature
+  | _, _ => .err .invalidSignature
 
 /-- the COSE algorithm dictated by the leaf key (`getSignatureAlgorithm(cert)`) -/
 def keyCoseAlg (k : Key) : Option Int := (extractKeySpec k).bind coseAlgOfKeySpec
+
+/-- go-cose `Sign1Message.Verify(nil, verifier)` with the verifier's algorithm `ka` succeeds -/
+def coseVerify (e : Env) (ka : Int) : Bool :=
+  !e.payloadNil && e.sigLen != 0 && headerAlg e == some ka && e.sigok
 
 /-- `envelope.Verify()` of the COSE envelope -/
 def verify (e : Env) : Out Content :=
@@ -153,15 +170,7 @@ def verify (e : Env) : Out Content :=
   | some (.bytes (some _) :: _) =>
     match keyCoseAlg e.leafKey with
     | none => .err .invalidSignature
-    | some ka =>
-      if e.payloadNil then .err .integrity
-      else if e.sigLen == 0 then .err .integrity
-      else match get e.prot lAlg with
-        | some (.int a) =>
-          if a != ka then .err .integrity
-          else if !e.sigok then .err .integrity
-          else content e
-        | _ => .err .integrity
+    | some ka => if coseVerify e ka then content e else .err .integrity
   | _ => .err .invalidSignature
 
 end NotationCore.Cose
